@@ -68,6 +68,7 @@ class GateCompiler(object):
             "params": self.params,
         }
         self.global_phase = 0.0
+        self._initial_global_phase = None
         if pulse_dict is not None:
             warnings.warn(
                 """
@@ -132,15 +133,23 @@ class GateCompiler(object):
             gates = circuit.gates
         else:
             gates = circuit
+        # The arguments given for this call must not leak into later calls.
+        compile_args = dict(self.args)
         if args is not None:
-            self.args.update(args)
+            compile_args.update(args)
+        # The recorded global phase belongs to one compilation: start from the
+        # value the compiler was constructed with instead of accumulating it
+        # over successive calls.
+        if getattr(self, "_initial_global_phase", None) is None:
+            self._initial_global_phase = self.global_phase
+        self.global_phase = self._initial_global_phase
         instruction_list = []
 
         # compile gates
         for gate in gates:
             if gate.name not in self.gate_compiler:
                 raise ValueError("Unsupported gate %s" % gate.name)
-            instruction = self.gate_compiler[gate.name](gate, self.args)
+            instruction = self.gate_compiler[gate.name](gate, compile_args)
             if instruction is None:
                 continue  # neglecting global phase gate
             instruction_list += instruction
